@@ -15,5 +15,10 @@ func init() { hx.Register("C10", Run) }
 
 func Run(c *hx.Ctx) {
 	c03.ModelCheck(c, "C10")
+	if len(c.Args) > 0 && c.Args[0] == "tcponly" { // development aid: only the stream proxy sessions
+		RunTcp(c, c.N(100, 500))
+		return
+	}
 	c03.RunMany(c, "C10", c.N(700, 2500), 8, true)
+	RunTcp(c, c.N(100, 500))
 }
